@@ -236,6 +236,11 @@ detail::TypedArgBase*
    mSubGroupArgs.addArgument( arg_hdl, key);
    mDescription.addArgument( desc, arg_hdl);
 
+   // the key of a sub-group argument must not be used by another handler of
+   // the group either
+   if (mUsedByGroup)
+      Groups::instance().crossCheckArguments( this);
+
    return arg_hdl;
 } // Handler::addArgument
 
